@@ -71,7 +71,7 @@ def check(ctx):
     docs = require_labels(SCREENING_LABELS)
     ctx.note("specification", {k: v[:160] for k, v in docs.items()})
     ctx.rule("R13.10", "the edge centres at which the induced potential is evaluated are those of the current sites: a Mesh never pairs new site "
-                       "coordinates with the EdgeMesh of old ones (shared with C07 R07.10)", 2)
+                       "coordinates with the EdgeMesh of old ones (shared with C07 R07.10)", 1)
     from .c07 import mesh_pairs_sites_and_edges
     mesh_pairs_sites_and_edges(ctx, "R13.10", "the screening kernel sums K a / |r_i - r_j| between sites at their new position and edge centres at the old one (e.g. "
                                               "after an in-place translation of a meshed device): the iteration converges on that far field, every step is accepted, "
@@ -359,6 +359,19 @@ def no_absolute_length_tolerance(ctx, rule, consequence):
         for x in ast.walk(plain[m]):
             if isinstance(x, ast.Attribute) and isinstance(x.value, ast.Name) and x.value.id == "self" and x.attr in plain:
                 todo.append(x.attr)
+    # module-level helpers of the device module that those members call (`terminal_info` as a thin method over a pure function)
+    dev_mod = D.module
+    bodies = {m: plain[m] for m in used}
+    todo_f = [n_.func.id for m in used for n_ in ast.walk(plain[m]) if isinstance(n_, ast.Call) and isinstance(n_.func, ast.Name)]
+    todo_f += [a_.id for m in used for n_ in ast.walk(plain[m]) if isinstance(n_, ast.Call) for a_ in n_.args if isinstance(a_, ast.Name)]
+    seen_f = set()
+    while todo_f:
+        fnm = todo_f.pop()
+        if fnm in seen_f or fnm not in dev_mod.functions:
+            continue
+        seen_f.add(fnm)
+        bodies[fnm] = dev_mod.functions[fnm].node
+        todo_f += [n_.func.id for n_ in ast.walk(bodies[fnm]) if isinstance(n_, ast.Call) and isinstance(n_.func, ast.Name)]
     defaults = {}
     for name, pm_ in Pc.methods.items():
         a = pm_.node.args
@@ -369,9 +382,9 @@ def no_absolute_length_tolerance(ctx, rule, consequence):
     if "contains_points" not in defaults or "on_boundary" not in defaults:
         raise AnalysisError(f"Polygon membership methods with a `radius` parameter: {sorted(defaults)}")
     sites = 0
-    for m in sorted(used):
-        f = D.methods.get(m)
-        for c in ast.walk(plain[m]):
+    for m in sorted(bodies):
+        f = D.methods.get(m) or dev_mod.functions.get(m)
+        for c in ast.walk(bodies[m]):
             if isinstance(c, ast.Call) and isinstance(c.func, ast.Attribute) and c.func.attr in defaults and not (isinstance(c.func.value, ast.Name) and c.func.value.id == "self" and c.func.attr not in Pc.methods):
                 # Device.contains_points forwards its own radius (default 0) to the polygons: a call on self is judged at its own call sites
                 kw = next((k.value for k in c.keywords if k.arg == "radius"), None)
